@@ -34,17 +34,21 @@ Local Opaque armor_header armor_footer.
 
 Lemma af_strip_cr_no_CR : forall l, ~ In CR l -> strip_cr l = l.
 Proof.
-  intros l H. unfold strip_cr. destruct (rev l) as [|c r] eqn:E; [reflexivity|].
-  destruct (Byte.eqb c CR) eqn:Ec; [|reflexivity].
-  apply byte_eqb_eq in Ec. subst c. exfalso. apply H.
-  apply in_rev. rewrite E. left; reflexivity.
+  induction l as [|x l IH]; intros H; [reflexivity|].
+  destruct l as [|y l'].
+  - cbn [strip_cr]. destruct (Byte.eqb x CR) eqn:Ec; [|reflexivity].
+    apply byte_eqb_eq in Ec. subst x. exfalso. apply H. left; reflexivity.
+  - change (strip_cr (x :: y :: l')) with (x :: strip_cr (y :: l')).
+    rewrite IH; [reflexivity|]. intros Hin. apply H. right; exact Hin.
 Qed.
 
 Lemma af_strip_cr_length : forall l, length (strip_cr l) <= length l.
 Proof.
-  intros l. unfold strip_cr. destruct (rev l) as [|c r] eqn:E; [lia|].
-  destruct (Byte.eqb c CR); [|lia].
-  rewrite <- (rev_length l), E, rev_length. cbn [length]. lia.
+  induction l as [|x l IH]; [cbn; lia|].
+  destruct l as [|y l'].
+  - cbn [strip_cr]. destruct (Byte.eqb x CR); cbn; lia.
+  - change (strip_cr (x :: y :: l')) with (x :: strip_cr (y :: l')).
+    cbn [length] in *. lia.
 Qed.
 
 Lemma af_is_prefix_refl : forall b, is_prefix b b = true.
